@@ -393,7 +393,7 @@ func greaterThanPostLost(req, v string) bool {
 
 var minLiteralC03 = regexp.MustCompile(`(^|[^0-9.])v?0(\.0){0,2}-0($|[^0-9A-Za-z.-])`)
 
-var notEqualOperand = regexp.MustCompile(`!=\s*v?([0-9]+(?:\.[0-9]+)*)[0-9A-Za-z.]*\s*(?:,|$)`)
+var notEqualOperand = regexp.MustCompile(`!=\s*v?([0-9]+(?:\.[0-9]+)*)[0-9A-Za-z._-]*\s*(?:,|$)`)
 
 // notEqualHidesPost: the candidate is a post-release with the release numbers
 // of the operand of some != comparator of the requirement (the operand itself
